@@ -219,6 +219,17 @@ def pred_range(side, fn, subj, env, depth=0):
         return (None, None)
     body = fn.body
     tail = body[2] if body[0] == "block" else body
+    if body[0] == "block" and body[1]:
+        # leading `let name = <constant expression>` statements (a shared helper computes its bound first:
+        # `let max = 1 << (bits - 1)`) are evaluated; other statements leave the tail's free names unbound
+        env = dict(env or {})
+        for st in body[1]:
+            if is_e(st) and st[0] == "let" and len(st[1]) == 1 and st[2] is not None:
+                v = ceval(side, st[2], env)
+                if v is not None:
+                    env[st[1][0]] = v
+                else:
+                    env.pop(st[1][0], None)
     return _range_of(side, fn, tail, subj, env, depth)
 
 
